@@ -70,10 +70,11 @@ const (
 	PSPendingFresh // pinned or bound, no status yet
 	PSFailed
 	PSUnknown
+	PSTerminatingUnready // terminating inside its grace period, not Ready any more
 )
 
 func (s PodState) String() string {
-	return [...]string{"none", "available", "unavailable", "terminating", "stuck-unscheduled", "terminating-past-grace", "pending", "failed", "unknown"}[s]
+	return [...]string{"none", "available", "unavailable", "terminating", "stuck-unscheduled", "terminating-past-grace", "pending", "failed", "unknown", "terminating-unready"}[s]
 }
 
 var podSeq int
@@ -149,6 +150,11 @@ func (p *Prep) addPod(node string, letter byte, st PodState, age time.Duration) 
 		ts := metav1.NewTime(now.Add(-5 * time.Second))
 		pod.DeletionTimestamp, pod.DeletionGracePeriodSeconds = &ts, &grace
 		pod.Finalizers = []string{"verif/keep"} // the tracker refuses a deletionTimestamp without finalizer
+	case PSTerminatingUnready:
+		ready(false)
+		ts := metav1.NewTime(now.Add(-3 * time.Second))
+		pod.DeletionTimestamp, pod.DeletionGracePeriodSeconds = &ts, &grace
+		pod.Finalizers = []string{"verif/keep"}
 	case PSTerminatingPastGrace:
 		ready(false)
 		ts := metav1.NewTime(now.Add(-5 * time.Minute))
